@@ -16,7 +16,7 @@ PROP = dict(
                     "model has none, existence must match the prefix-closed node set.  Path leg (120k / 2M cases): mpt_path_set + walk with "
                     "mpt_path_next / mpt_path_last against split(sep); rebuild with addchar/valid/add and mpt_path_del in text and binary mode; the "
                     "parser's protocol with characters that are not kept (0..3 blanks before / inside / after names, trailing characters left "
-                    "pending, mpt_path_invalidate, mpt_path_del, shared copies of the path data) against a model of pending bytes and keep mark, "
+                    "pending, mpt_path_invalidate, mpt_path_del, mpt_path_delchar incl. one more than is pending, shared copies of the path data) against a model of pending bytes and keep mark, "
                     "element lengths aimed at the allocation steps of the path buffer (used == size, +-1).  "
                     "Exploration, not proof."),
         level_note=("trusts the map model in harness/c10_global.c / c10_cxx.cpp and the split model in c10_path.c, gcc ASan/UBSan/LSan; "
@@ -32,7 +32,9 @@ PROP = dict(
                            "state:addchar-at-allocation-step": 50000, "state:pending-char-at-allocation-step": 10000,
                            "state:invalidate-exactly-full": 1000, "state:trailing-characters-left": 40000,
                            "state:shared-copy": 10000, "monitor:shared-copy-walks": 40000,
-                           "monitor:parser-protocol-walks": 200000}),
+                           "monitor:parser-protocol-walks": 200000,
+                           "mpt_path_delchar": 80000, "outcome:delchar-took-back": 25000, "state:delchar-nothing-pending": 50000,
+                           "state:delchar-nothing-pending-after-element": 20000, "monitor:addchar-delchar-identity": 20000}),
               dict(name="c10_global", src=["c10_global.c"], libs=["mptcore"], batch=1, lsan=True,
                    floors={"mpt_config_set:assign": 30000, "mpt_config_set:remove": 10000, "mpt_config_set:clear": 1000,
                            "mpt_config_global:view": 2000, "view:assign": 10000, "view:remove": 5000, "view:node-conversion": 1000,
